@@ -611,6 +611,45 @@ def canary(chk, binary):
 
 
 # ------------------------------------------------------------------ entry points
+def megabyte_stream(chk, binary):
+    """Buffers of a megabyte and more (any growth policy that depends on the current capacity shows only there). Monitor only:
+    the harness keeps a plain []byte reference (c13big.go); the list model needs tens of seconds per such case."""
+    rng = chk.rng.fork()
+    M = 1 << 20
+    cases = []
+    for kind in ("B", "S"):
+        for c in (M, M + 1, 2 * M) if chk.tier != "quick" else (M, M + 1):
+            for second in (c // 4 - 1, c // 4 + 1, c // 2, c + 100, 2 * c):
+                cases.append("c13G %s w%d w%d r5 t w%d r%d" % (kind, c, second, rng.range(1, 4096), rng.range(1, 3 * M)))
+        cases.append("c13G %s w%d w100 w%d r7 w%d r%d t w%d" % (kind, M, M, M // 3, 2 * M + 55, 300000 + rng.range(0, 999)))
+        cases.append("c13G %s w%d r%d t w%d w%d r9" % (kind, M, M - 3, 2 * M, 600000))
+        for _ in range(3 if chk.tier == "quick" else 30):
+            ops, tot = [], 0
+            for _ in range(rng.range(3, 8)):
+                k = rng.choice(["w", "w", "w", "r", "t"])
+                if k == "w":
+                    n = rng.choice([rng.range(1, 100), rng.range(200000, 400000), rng.range(M - 5, M + 5), rng.range(M, 3 * M)])
+                    tot += n
+                    ops.append("w%d" % n)
+                elif k == "r":
+                    ops.append("r%d" % rng.range(1, max(2, tot)))
+                else:
+                    ops.append("t")
+            cases.append("c13G %s %s" % (kind, " ".join(ops)))
+    try:
+        outs = common.run_impl(binary, cases, timeout=300)
+    except common.ImplCrash as e:
+        chk.monitor_fail("crash", cases[0], str(e)[-400:], "the megabyte-buffer scenarios did not finish: " + str(e)[-200:])
+        return
+    for c, o in zip(cases, outs):
+        chk.count_case("megabyte-buffers", c, True)
+        if not o.startswith("ok "):
+            chk.monitor_fail("panic" if o.startswith("PANIC") else "content", c, o[:300],
+                             "op sequence on a fresh %s (w<n> Write of n bytes, r<n> Read, t Tidy; token index in the result): %s" % (
+                                 "iox.Buffer" if c.split()[1] == "B" else "iox.OctetsStream", o[:200]))
+    chk.sample(dict(stream="megabyte-buffers", case=cases[0], impl=outs[0]), limit=9)
+
+
 def run(chk):
     chk.trusted = common.BASE_TRUSTED + [
         "modelled: Go int/int64 as 64-bit two's complement (wrap written into Seek's additions); copy() as memmove; "
@@ -625,6 +664,7 @@ def run(chk):
         streams = [("corpus", pure.corpus_cases("C13"))] + gen(chk.rng, chk.tier)
         pure.run_streams(chk, binary, streams, compare, monitor, nontrivial)
         chk.cov["model_branches_hit"] = dict(sorted(STATS.items()))
+        megabyte_stream(chk, binary)
         try:
             canary(chk, binary)
             sample = []
